@@ -825,6 +825,38 @@ class Machine(object):
                 else:
                     fr.regs[ins.dest] = Ptr('?int', None)
                 continue
+            if op in ('extractvalue', 'insertvalue') and ins.args and ins.x.get('indices') is not None:
+                aty = ins.args[0][0]
+                off, fty = 0, aty
+                ok = True
+                for ix in ins.x['indices']:
+                    rt = mod.resolve(fty)
+                    if rt[0] == 's':
+                        fo, et = mod.field_offset(rt, ix)
+                        off += fo
+                        fty = et
+                    elif rt[0] == 'a':
+                        off += ix * mod.sizeof(rt[2])
+                        fty = rt[2]
+                    else:
+                        ok = False
+                        break
+                n = mod.sizeof(aty)
+                base = self.operand(ins.args[0])
+                if ok and not isinstance(base, Agg):
+                    base = Agg([(UNDEF,) * 8] * n)          # undef / zeroinitializer aggregate being built up
+                if ok and len(base.cells) == n:
+                    scratch = Region('%%agg.%d' % fr.idx, 'undef', n)
+                    for i in range(n):
+                        scratch.mem[i] = base.cells[i]
+                    w.regions[scratch.name] = scratch
+                    if op == 'extractvalue':
+                        fr.regs[ins.dest] = self.load(Ptr(scratch.name, off), fty)
+                    else:
+                        self.store(Ptr(scratch.name, off), ins.args[1][0], self.operand(ins.args[1]))
+                        fr.regs[ins.dest] = Agg([scratch.get(i) for i in range(n)])
+                    del w.regions[scratch.name]
+                    continue
             if op == 'unreachable':
                 self.undecided('reached unreachable')
             if op in ('fptrunc', 'fpext', 'fptoui', 'fptosi', 'uitofp', 'sitofp', 'fneg',
